@@ -341,6 +341,14 @@ func (e *Engine) parseContractLines(p *packages.Package, file string, lines []st
 		case "func":
 			key := strings.Fields(rest)[0]
 			fn := e.lookupFn(p.Name, key)
+			if fn == nil && !strings.ContainsAny(key, ".$") && p.Types != nil {
+				// a private function renamed since the contracts were written (names.go)
+				if alt := e.renamedPkgObject(p.Types, key); alt != "" {
+					if f2 := e.lookupFn(p.Name, alt); f2 != nil {
+						fn, key = f2, alt
+					}
+				}
+			}
 			cur = &FuncContract{Key: p.Name + "." + key, Fn: fn, Loops: map[int]*LoopContract{}}
 			curModes = nil
 			if fn == nil {
